@@ -182,10 +182,56 @@ func (x *Exec) newState(m Mode) *State {
 	return &State{m: m, heap: map[string]Tm{}, sorts: map[string]Sort{}, alloc: Tm{"0", SInt}, x: x, frames: map[int]*frameData{}}
 }
 
+// sanitizeFrame: a frame item (modifies / preserves, also of loops) that no longer resolves - the
+// field or type it names was removed or renamed by a change to the code - becomes a failed
+// obligation "contract:frame" of the function instead of aborting the whole function: the other
+// obligations are still generated, with the item dropped.
+func (x *Exec) sanitizeFrame(st *State, c *Contract) *Contract {
+	ok := func(item string) (good bool) {
+		if item == "none" || item == "nothing" {
+			return true
+		}
+		defer func() {
+			if r := recover(); r != nil {
+				if ee, isEE := r.(*EngineError); isEE {
+					x.emit(st, "contract:frame", "contract", tFalse, "frame item "+item+" of the contract cannot be resolved on this tree: "+ee.Msg)
+					good = false
+					return
+				}
+				panic(r)
+			}
+		}()
+		x.modifiesKeys(st, c.Pkg, item)
+		return true
+	}
+	filter := func(items []string) []string {
+		var out []string
+		for _, it := range items {
+			if ok(it) {
+				out = append(out, it)
+			}
+		}
+		return out
+	}
+	cc := *c
+	cc.Modifies = filter(c.Modifies)
+	cc.Preserves = filter(c.Preserves)
+	cc.Loops = map[int]*LoopSpec{}
+	for k, l := range c.Loops {
+		ll := *l
+		ll.Modifies = filter(l.Modifies)
+		ll.Preserves = filter(l.Preserves)
+		cc.Loops[k] = &ll
+	}
+	return &cc
+}
+
 func (x *Exec) verify(fn *ssa.Function, c *Contract) {
 	m := modeOf(c.Mode)
 	x.mode = m
 	st := x.newState(m)
+	c = x.sanitizeFrame(st, c)
+	x.cur = c
 	fr := x.newFrame(fn, nil, st)
 	fr.entryHeap = map[string]Tm{}
 	var args []*Val
